@@ -70,7 +70,7 @@ def gen_array(rng, kind):
         return x
     nd = int(rng.integers(1, 4)) if kind != "raw" else 1
     shape = tuple(int(rng.choice([0, 1, 2, 5, 17])) if rng.random() < 0.15 else int(rng.integers(1, 40)) for _ in range(nd))
-    dt = str(rng.choice(["float32", "float64", "int16", "int32", "uint8", "int64"]))
+    dt = str(rng.choice(["float32", "float64", "int16", "int32", "uint8", "int64", "float16"]))
     if dt.startswith("float"):
         x = rng.standard_normal(shape).astype(dt)
     else:
